@@ -8,6 +8,10 @@
 //	uniform-nu, uniform-ro               hash_to_field + map + cofactor clearing on crafted uniform bytes (hook)
 //	suite/<function>                     the exported suite functions on the (DST, message) grid
 //	xmd-sweep/<hash>, xof-sweep/<xof>,   EVERY message length 0..400 (thorough 0..1100) x 13 DST lengths x output lengths {48, 64, 96};
+//	memory                               every byte-slice argument as a sub-slice of a guarded arena (all orderings in one buffer,
+//	                                     gap 0/1, spare capacity): result = reference, caller memory unchanged except `out`
+//	history                              single-goroutine call histories [a; b; a] colliding on DST bytes / message / length across
+//	                                     all ordered pairs of hashes, XOFs and suite functions: every step = reference
 //	suite-sweep/<function>               five suite functions on every message length 0..300 (600) with the ECVRF DST and the RFC's J.5 DST
 //
 // Oracle: package refh2c (RFC 9380 written literally with math/big).
@@ -111,6 +115,8 @@ func run(c *mc.Ctx) {
 	// the DST/message framing is enumerated in xmd/xof; the suites get the core DST alphabet in both tiers
 	timed("suite", func() { runSuites(c, byteStrings(c.Seed, "dst", []int{1, 16, 254, 255, 256, 257, 1000})) })
 	timed("sweep", func() { runSweeps(c) })
+	timed("memory", func() { runMemory(c) })
+	timed("history", func() { runHistory(c) })
 	c.Rep.Extra["wall_s_by_group"] = timing // informational only; no verdict depends on it
 
 	// Which exceptional inputs exist at all is a fact about the curve constants, established on the reference side:
@@ -131,6 +137,8 @@ func run(c *mc.Ctx) {
 		"ell2/gx1-square", "ell2/gx1-nonsquare", "ell2/exceptional-t=0", "ell2/small-order-image",
 		"uniform-nu/reduced(>=p)", "uniform-nu/identity", "uniform-ro/Q0=Q1", "uniform-ro/Q0=-Q1", "uniform-ro/generic",
 		"suite/edwards-ro", "suite/edwards-nu", "suite/ristretto", "suite/refused",
+		"memory/expand", "memory/suite",
+		"history/same-dst-other-function", "history/same-dst-other-function/oversize-dst", "history/same-function-other-dst", "history/same-function-other-length", "history/same-function-other-message",
 	} {
 		c.Require(cl, 1)
 	}
